@@ -39,6 +39,16 @@ Init ==
     [] KIND = "mmr" -> \E n \in 1 .. MaxLeaves :
                               LET leaves == [i \in 1 .. n |-> i] IN
                               sc = [kind |-> "mmr", n |-> n, peaks |-> Peaks(leaves, 1), npeaks |-> PopCount(n), gets |-> [p \in 0 .. n - 1 |-> MmrGet(leaves, p)]]
+    \* accumulators given directly by their peaks (any number of peaks up to 32: a leaf count of np one bits, all low bits
+    \* or every second bit): pack hashes PeakWords(np) words and files them, unpack restores num_leaves and the peaks
+    [] KIND = "mmrpack" -> \E np \in 1 .. 32, pat \in {"ones", "spread"} :
+                              /\ pat = "spread" => np <= 16
+                              /\ LET lo == IF pat = "ones" THEN (IF np >= 16 THEN 65535 ELSE Pow2(np) - 1)
+                                           ELSE (Pow2(2 * (IF np < 8 THEN np ELSE 8)) - 1) \div 3
+                                     hi == IF pat = "ones" THEN (IF np <= 16 THEN 0 ELSE Pow2(np - 16) - 1)
+                                           ELSE (IF np <= 8 THEN 0 ELSE (Pow2(2 * (np - 8)) - 1) \div 3)
+                                 IN sc = [kind |-> "mmrpack", np |-> np, pat |-> pat, leaves |-> <<lo, hi>>, words |-> PeakWords(np),
+                                          padded |-> PaddedPeaks([i \in 1 .. np |-> i])]
     \* (smt.masm documents leaves holding more than one key-value pair as unimplemented: keys 2 and 3 share a leaf, so
     \* histories in which both would be present are outside the contract)
     [] KIND = "smt" -> \E init \in [Keys -> {0, 1}], h \in Hist(HistLen) :
@@ -47,5 +57,6 @@ Init ==
 Next == UNCHANGED sc
 Emit == PrintT(ToJson([tag |-> "std"] @@ sc))
 \* the contract's own properties
-MmrPeaks == KIND = "mmr" => Len(sc.peaks) = sc.npeaks
+MmrPeaks == /\ KIND = "mmr" => Len(sc.peaks) = sc.npeaks
+            /\ KIND = "mmrpack" => Len(sc.padded) = sc.words /\ sc.words % 2 = 0 /\ sc.words >= 16 /\ sc.words >= sc.np /\ sc.words <= sc.np + 15
 =============================================================================
